@@ -1,4 +1,5 @@
-import Ekit.MiniGo.RBContract
+import Ekit.MiniGo.RBOrder
+import Ekit.Lemmas.RBSorted
 namespace Ekit.MiniGo.RBHeap.AddN
 open Ekit.MiniGo Ekit.Gen.RBTreeGo
 
@@ -45,7 +46,8 @@ theorem link_left {h : Nat → Node} {root : Option Nat} {A : Nat} {t : PT} {p :
     (hf' : (h' A).left = none ∧ (h' A).right = none ∧ (h' A).parent = some p)
     (hp' : (h' p).left = some A ∧ (h' p).right = (h p).right ∧ (h' p).parent = (h p).parent)
     (hoth : ∀ b, b ≠ p → b ≠ A → h' b = h b) :
-    ∃ t', (Repr h' root none t' ∧ t'.addrs.Nodup ∧ ∀ a ∈ t'.addrs, a < A + 1) ∧ A ∈ t'.addrs := by
+    ∃ t', (Repr h' root none t' ∧ t'.addrs.Nodup ∧ ∀ a ∈ t'.addrs, a < A + 1) ∧ A ∈ t'.addrs ∧
+      ∃ pre post, t.addrs = pre ++ p :: post ∧ t'.addrs = pre ++ A :: p :: post := by
   have hfA : A ∉ t.addrs := fun hm => Nat.lt_irrefl _ (hb A hm)
   obtain ⟨s, hs⟩ := sub_some_of_mem hp
   obtain ⟨⟨L, R, rfl⟩, hsub⟩ := sub_spec hs
@@ -91,7 +93,7 @@ theorem link_left {h : Nat → Node} {root : Option Nat} {A : Nat} {t : PT} {p :
         · exact .inr (.inr hx)
         · exact .inl ⟨h1, hx⟩
       · exact .inr (.inl h1)
-  refine ⟨t.replace p (.node (.node .leaf A .leaf) p R), ⟨?_, ?_, ?_⟩, (hmem A).2 (.inr rfl)⟩
+  refine ⟨t.replace p (.node (.node .leaf A .leaf) p R), ⟨?_, ?_, ?_⟩, (hmem A).2 (.inr rfl), ?_⟩
   · simp only [PT.ptr] at hrep
     split at hrep
     · rename_i e; rw [e]; exact hrep
@@ -110,6 +112,8 @@ theorem link_left {h : Nat → Node} {root : Option Nat} {A : Nat} {t : PT} {p :
     rcases (hmem a).1 ha with h1 | h1
     · exact Nat.lt_succ_of_lt (hb a h1)
     · omega
+  · obtain ⟨pre, post, e1, e2⟩ := addrs_replace (s' := .node (.node .leaf A .leaf) p R) hnd hs
+    exact ⟨pre, R.addrs ++ post, by simp [e1, PT.addrs], by simp [e2, PT.addrs]⟩
 
 theorem link_right {h : Nat → Node} {root : Option Nat} {A : Nat} {t : PT} {p : Nat}
     (hR : Repr h root none t) (hnd : t.addrs.Nodup) (hb : ∀ a ∈ t.addrs, a < A)
@@ -117,7 +121,8 @@ theorem link_right {h : Nat → Node} {root : Option Nat} {A : Nat} {t : PT} {p 
     (hf' : (h' A).left = none ∧ (h' A).right = none ∧ (h' A).parent = some p)
     (hp' : (h' p).right = some A ∧ (h' p).left = (h p).left ∧ (h' p).parent = (h p).parent)
     (hoth : ∀ b, b ≠ p → b ≠ A → h' b = h b) :
-    ∃ t', (Repr h' root none t' ∧ t'.addrs.Nodup ∧ ∀ a ∈ t'.addrs, a < A + 1) ∧ A ∈ t'.addrs := by
+    ∃ t', (Repr h' root none t' ∧ t'.addrs.Nodup ∧ ∀ a ∈ t'.addrs, a < A + 1) ∧ A ∈ t'.addrs ∧
+      ∃ pre post, t.addrs = pre ++ p :: post ∧ t'.addrs = pre ++ p :: A :: post := by
   have hfA : A ∉ t.addrs := fun hm => Nat.lt_irrefl _ (hb A hm)
   obtain ⟨s, hs⟩ := sub_some_of_mem hp
   obtain ⟨⟨L, R, rfl⟩, hsub⟩ := sub_spec hs
@@ -167,7 +172,7 @@ theorem link_right {h : Nat → Node} {root : Option Nat} {A : Nat} {t : PT} {p 
           · exact .inr (.inr (.inl hx))
         · exact .inl ⟨h1, hx⟩
       · exact .inr (.inr (.inr h1))
-  refine ⟨t.replace p (.node L p (.node .leaf A .leaf)), ⟨?_, ?_, ?_⟩, (hmem A).2 (.inr rfl)⟩
+  refine ⟨t.replace p (.node L p (.node .leaf A .leaf)), ⟨?_, ?_, ?_⟩, (hmem A).2 (.inr rfl), ?_⟩
   · simp only [PT.ptr] at hrep
     split at hrep
     · rename_i e; rw [e]; exact hrep
@@ -194,13 +199,16 @@ theorem link_right {h : Nat → Node} {root : Option Nat} {A : Nat} {t : PT} {p 
     rcases (hmem a).1 ha with h1 | h1
     · exact Nat.lt_succ_of_lt (hb a h1)
     · omega
+  · obtain ⟨pre, post, e1, e2⟩ := addrs_replace (s' := .node L p (.node .leaf A .leaf)) hnd hs
+    exact ⟨pre ++ L.addrs, post, by simp [e1, PT.addrs], by simp [e2, PT.addrs]⟩
 
 theorem link_left' {st : St} {t : PT} {p : Nat} (hH : Holds st t)
     (hp : p ∈ t.addrs) (hl : (st.h p).left = none) (h' : Nat → Node) (sz : Int)
     (hf' : (h' st.alloc).left = none ∧ (h' st.alloc).right = none ∧ (h' st.alloc).parent = some p)
     (hp' : (h' p).left = some st.alloc ∧ (h' p).right = (st.h p).right ∧ (h' p).parent = (st.h p).parent)
     (hoth : ∀ b, b ≠ p → b ≠ st.alloc → h' b = st.h b) :
-    ∃ t', Holds ⟨h', st.alloc + 1, st.root, sz⟩ t' ∧ st.alloc ∈ t'.addrs :=
+    ∃ t', Holds ⟨h', st.alloc + 1, st.root, sz⟩ t' ∧ st.alloc ∈ t'.addrs ∧
+      ∃ pre post, t.addrs = pre ++ p :: post ∧ t'.addrs = pre ++ st.alloc :: p :: post :=
   link_left hH.1 hH.2.1 hH.2.2 hp hl h' hf' hp' hoth
 
 theorem link_right' {st : St} {t : PT} {p : Nat} (hH : Holds st t)
@@ -208,8 +216,27 @@ theorem link_right' {st : St} {t : PT} {p : Nat} (hH : Holds st t)
     (hf' : (h' st.alloc).left = none ∧ (h' st.alloc).right = none ∧ (h' st.alloc).parent = some p)
     (hp' : (h' p).right = some st.alloc ∧ (h' p).left = (st.h p).left ∧ (h' p).parent = (st.h p).parent)
     (hoth : ∀ b, b ≠ p → b ≠ st.alloc → h' b = st.h b) :
-    ∃ t', Holds ⟨h', st.alloc + 1, st.root, sz⟩ t' ∧ st.alloc ∈ t'.addrs :=
+    ∃ t', Holds ⟨h', st.alloc + 1, st.root, sz⟩ t' ∧ st.alloc ∈ t'.addrs ∧
+      ∃ pre post, t.addrs = pre ++ p :: post ∧ t'.addrs = pre ++ p :: st.alloc :: post :=
   link_right hH.1 hH.2.1 hH.2.2 hp hl h' hf' hp' hoth
+
+theorem link_left0 {st : St} {t : PT} {p : Nat} (hH : Holds st t)
+    (hp : p ∈ t.addrs) (hl : (st.h p).left = none) (h' : Nat → Node) (sz : Int)
+    (hf' : (h' st.alloc).left = none ∧ (h' st.alloc).right = none ∧ (h' st.alloc).parent = some p)
+    (hp' : (h' p).left = some st.alloc ∧ (h' p).right = (st.h p).right ∧ (h' p).parent = (st.h p).parent)
+    (hoth : ∀ b, b ≠ p → b ≠ st.alloc → h' b = st.h b) :
+    ∃ t', Holds ⟨h', st.alloc + 1, st.root, sz⟩ t' ∧ st.alloc ∈ t'.addrs := by
+  obtain ⟨t', a, b, _⟩ := link_left' hH hp hl h' sz hf' hp' hoth
+  exact ⟨t', a, b⟩
+
+theorem link_right0 {st : St} {t : PT} {p : Nat} (hH : Holds st t)
+    (hp : p ∈ t.addrs) (hl : (st.h p).right = none) (h' : Nat → Node) (sz : Int)
+    (hf' : (h' st.alloc).left = none ∧ (h' st.alloc).right = none ∧ (h' st.alloc).parent = some p)
+    (hp' : (h' p).right = some st.alloc ∧ (h' p).left = (st.h p).left ∧ (h' p).parent = (st.h p).parent)
+    (hoth : ∀ b, b ≠ p → b ≠ st.alloc → h' b = st.h b) :
+    ∃ t', Holds ⟨h', st.alloc + 1, st.root, sz⟩ t' ∧ st.alloc ∈ t'.addrs := by
+  obtain ⟨t', a, b, _⟩ := link_right' hH hp hl h' sz hf' hp' hoth
+  exact ⟨t', a, b⟩
 
 /-! ### the pieces of `body_addNode` -/
 
@@ -330,13 +357,13 @@ theorem after_spec (ρ : Env) (st : St) (t : PT) (m : Nat) (hH : Holds st t) (h0
     obtain ⟨_, rfl, rfl⟩ := h
     have hpA : p ≠ st.alloc := Nat.ne_of_lt (hH.2.2 p hp)
     simp only [set_apply, PtrIn, if_true]
-    exact link_left' hH hp (hl h1) _ _ (by simp [upd, hpA.symm])
+    exact link_left0 hH hp (hl h1) _ _ (by simp [upd, hpA.symm])
       (by simp [upd, hpA]) (fun b hb1 hb2 => by simp [upd, hb1, hb2])
   · simp [h1, Node.set] at h
     obtain ⟨_, rfl, rfl⟩ := h
     have hpA : p ≠ st.alloc := Nat.ne_of_lt (hH.2.2 p hp)
     simp only [set_apply, PtrIn, if_true]
-    exact link_right' hH hp (hr h1) _ _ (by simp [upd, hpA.symm])
+    exact link_right0 hH hp (hr h1) _ _ (by simp [upd, hpA.symm])
       (by simp [upd, hpA]) (fun b hb1 hb2 => by simp [upd, hb1, hb2])
 theorem else_spec (ρ : Env) (st : St) (t : PT) (m : Nat) (hH : Holds st t) (hroot : st.root ≠ none)
     (h0 : ρ 0 = .ptr (some m)) (fl : Flow) (ρ' : Env) (st' : St)
@@ -454,5 +481,400 @@ theorem addNode_spec (cmpF : Int → Int → Int) (callH : CallH PName) (lf : Na
       simp at h
       obtain ⟨_, rfl⟩ := h
       exact ⟨t1, hH1⟩
+
+/-! ### order -/
+
+theorem split_unique : ∀ {a a' b b' : List Nat} {x : Nat}, (a ++ x :: b).Nodup →
+    a ++ x :: b = a' ++ x :: b' → a = a' ∧ b = b' := by
+  intro a
+  induction a with
+  | nil =>
+    intro a' b b' x hnd h
+    cases a' with
+    | nil => simp at h; exact ⟨rfl, h⟩
+    | cons y a'' =>
+      simp at h
+      obtain ⟨rfl, hb⟩ := h
+      simp [hb] at hnd
+  | cons y a ih =>
+    intro a' b b' x hnd h
+    cases a' with
+    | nil =>
+      simp at h
+      obtain ⟨rfl, _⟩ := h
+      simp at hnd
+    | cons y' a'' =>
+      simp only [List.cons_append, List.cons.injEq] at h
+      obtain ⟨rfl, h⟩ := h
+      have := ih (List.nodup_cons.1 hnd).2 h
+      exact ⟨by rw [this.1], this.2⟩
+
+theorem pw_insert_left {R : Nat → Nat → Prop} {P Q : List Nat} {p A : Nat}
+    (h : (P ++ p :: Q).Pairwise R) (hP : ∀ x ∈ P, R x A) (hp : R A p) (hQ : ∀ x ∈ Q, R A x) :
+    (P ++ A :: p :: Q).Pairwise R := by
+  rw [List.pairwise_append] at h ⊢
+  obtain ⟨h1, h2, h3⟩ := h
+  refine ⟨h1, List.pairwise_cons.2 ⟨fun x hx => ?_, h2⟩, fun a ha b hb => ?_⟩
+  · rcases List.mem_cons.1 hx with hx | hx
+    · rw [hx]; exact hp
+    · exact hQ x hx
+  · rcases List.mem_cons.1 hb with hb | hb
+    · rw [hb]; exact hP a ha
+    · exact h3 a ha b hb
+
+theorem pw_insert_right {R : Nat → Nat → Prop} {P Q : List Nat} {p A : Nat}
+    (h : (P ++ p :: Q).Pairwise R) (hP : ∀ x ∈ P, R x A) (hp : R p A) (hQ : ∀ x ∈ Q, R A x) :
+    (P ++ p :: A :: Q).Pairwise R := by
+  rw [List.pairwise_append] at h ⊢
+  obtain ⟨h1, h2, h3⟩ := h
+  rw [List.pairwise_cons] at h2
+  refine ⟨h1, List.pairwise_cons.2 ⟨fun x hx => ?_, List.pairwise_cons.2 ⟨hQ, h2.2⟩⟩, fun a ha b hb => ?_⟩
+  · rcases List.mem_cons.1 hx with hx | hx
+    · rw [hx]; exact hp
+    · exact h2.1 x hx
+  · rcases List.mem_cons.1 hb with hb | hb
+    · exact h3 a ha b (by simp [hb])
+    · rcases List.mem_cons.1 hb with hb | hb
+      · rw [hb]; exact hP a ha
+      · exact h3 a ha b (List.mem_cons_of_mem _ hb)
+
+theorem pw_mid {R : Nat → Nat → Prop} {l1 l2 l3 l4 : List Nat} {a : Nat}
+    (h : (l1 ++ (l2 ++ a :: l3) ++ l4).Pairwise R) : (∀ x ∈ l2, R x a) ∧ (∀ x ∈ l3, R a x) := by
+  have h' := (List.pairwise_append.1 h).1
+  have h'' := (List.pairwise_append.1 h').2.1
+  obtain ⟨_, h2, h3⟩ := List.pairwise_append.1 h''
+  exact ⟨fun x hx => h3 x hx a (by simp), (List.pairwise_cons.1 h2).1⟩
+
+theorem ordered_iff {cmpF : Int → Int → Int} {st : St} {t : PT} :
+    Ordered cmpF st t ↔ t.addrs.Pairwise (fun a b => cmpF (st.h a).key (st.h b).key < 0) := by
+  simp [Ordered, keysOf, List.pairwise_map]
+
+theorem ordered_congr {cmpF : Int → Int → Int} {st st' : St} {t : PT}
+    (hk : ∀ a ∈ t.addrs, (st'.h a).key = (st.h a).key) (hO : Ordered cmpF st t) : Ordered cmpF st' t := by
+  have : keysOf st' t = keysOf st t := List.map_congr_left hk
+  simp only [Ordered, this]; exact hO
+
+theorem ordered_link_left {cmpF : Int → Int → Int} {st st' : St} {t t' : PT} {p A : Nat} {k : Int}
+    {P Q : List Nat}
+    (hO : Ordered cmpF st t) (hk : ∀ x ∈ t.addrs, (st'.h x).key = (st.h x).key) (hA : (st'.h A).key = k)
+    (e1 : t.addrs = P ++ p :: Q) (e2 : t'.addrs = P ++ A :: p :: Q)
+    (hP : ∀ x ∈ P, cmpF (st.h x).key k < 0) (hp : cmpF k (st.h p).key < 0)
+    (hQ : ∀ x ∈ Q, cmpF k (st.h x).key < 0) :
+    Ordered cmpF st' t' := by
+  have hO' := ordered_iff.1 (ordered_congr hk hO)
+  rw [ordered_iff, e2]
+  rw [e1] at hO' hk
+  refine pw_insert_left hO' (fun x hx => ?_) ?_ (fun x hx => ?_)
+  · rw [hA, hk x (by simp [hx])]; exact hP x hx
+  · rw [hA, hk p (by simp)]; exact hp
+  · rw [hA, hk x (by simp [hx])]; exact hQ x hx
+
+theorem ordered_link_right {cmpF : Int → Int → Int} {st st' : St} {t t' : PT} {p A : Nat} {k : Int}
+    {P Q : List Nat}
+    (hO : Ordered cmpF st t) (hk : ∀ x ∈ t.addrs, (st'.h x).key = (st.h x).key) (hA : (st'.h A).key = k)
+    (e1 : t.addrs = P ++ p :: Q) (e2 : t'.addrs = P ++ p :: A :: Q)
+    (hP : ∀ x ∈ P, cmpF (st.h x).key k < 0) (hp : cmpF (st.h p).key k < 0)
+    (hQ : ∀ x ∈ Q, cmpF k (st.h x).key < 0) :
+    Ordered cmpF st' t' := by
+  have hO' := ordered_iff.1 (ordered_congr hk hO)
+  rw [ordered_iff, e2]
+  rw [e1] at hO' hk
+  refine pw_insert_right hO' (fun x hx => ?_) ?_ (fun x hx => ?_)
+  · rw [hA, hk x (by simp [hx])]; exact hP x hx
+  · rw [hA, hk p (by simp)]; exact hp
+  · rw [hA, hk x (by simp [hx])]; exact hQ x hx
+
+theorem link_left_ord {cmpF : Int → Int → Int} {st : St} {t : PT} {p : Nat} {k : Int} {P Q : List Nat}
+    (hH : Holds st t) (hO : Ordered cmpF st t)
+    (e1 : t.addrs = P ++ p :: Q) (hl : (st.h p).left = none) (h' : Nat → Node) (sz : Int)
+    (hf' : (h' st.alloc).left = none ∧ (h' st.alloc).right = none ∧ (h' st.alloc).parent = some p)
+    (hp' : (h' p).left = some st.alloc ∧ (h' p).right = (st.h p).right ∧ (h' p).parent = (st.h p).parent)
+    (hoth : ∀ b, b ≠ p → b ≠ st.alloc → h' b = st.h b)
+    (hk : ∀ x ∈ t.addrs, (h' x).key = (st.h x).key) (hA : (h' st.alloc).key = k)
+    (hP : ∀ x ∈ P, cmpF (st.h x).key k < 0) (hp : cmpF k (st.h p).key < 0)
+    (hQ : ∀ x ∈ Q, cmpF k (st.h x).key < 0) :
+    ∃ t', Holds ⟨h', st.alloc + 1, st.root, sz⟩ t' ∧ Ordered cmpF ⟨h', st.alloc + 1, st.root, sz⟩ t' ∧
+      st.alloc ∈ t'.addrs := by
+  have hpm : p ∈ t.addrs := by rw [e1]; simp
+  obtain ⟨t', ht', hA', pre, post, f1, f2⟩ := link_left' hH hpm hl h' sz hf' hp' hoth
+  have hnd := hH.2.1
+  rw [e1] at hnd
+  obtain ⟨rfl, rfl⟩ := split_unique hnd (e1.symm.trans f1)
+  exact ⟨t', ht', ordered_link_left (st' := ⟨h', st.alloc + 1, st.root, sz⟩) hO hk hA e1 f2 hP hp hQ, hA'⟩
+
+theorem link_right_ord {cmpF : Int → Int → Int} {st : St} {t : PT} {p : Nat} {k : Int} {P Q : List Nat}
+    (hH : Holds st t) (hO : Ordered cmpF st t)
+    (e1 : t.addrs = P ++ p :: Q) (hl : (st.h p).right = none) (h' : Nat → Node) (sz : Int)
+    (hf' : (h' st.alloc).left = none ∧ (h' st.alloc).right = none ∧ (h' st.alloc).parent = some p)
+    (hp' : (h' p).right = some st.alloc ∧ (h' p).left = (st.h p).left ∧ (h' p).parent = (st.h p).parent)
+    (hoth : ∀ b, b ≠ p → b ≠ st.alloc → h' b = st.h b)
+    (hk : ∀ x ∈ t.addrs, (h' x).key = (st.h x).key) (hA : (h' st.alloc).key = k)
+    (hP : ∀ x ∈ P, cmpF (st.h x).key k < 0) (hp : cmpF (st.h p).key k < 0)
+    (hQ : ∀ x ∈ Q, cmpF k (st.h x).key < 0) :
+    ∃ t', Holds ⟨h', st.alloc + 1, st.root, sz⟩ t' ∧ Ordered cmpF ⟨h', st.alloc + 1, st.root, sz⟩ t' ∧
+      st.alloc ∈ t'.addrs := by
+  have hpm : p ∈ t.addrs := by rw [e1]; simp
+  obtain ⟨t', ht', hA', pre, post, f1, f2⟩ := link_right' hH hpm hl h' sz hf' hp' hoth
+  have hnd := hH.2.1
+  rw [e1] at hnd
+  obtain ⟨rfl, rfl⟩ := split_unique hnd (e1.symm.trans f1)
+  exact ⟨t', ht', ordered_link_right (st' := ⟨h', st.alloc + 1, st.root, sz⟩) hO hk hA e1 f2 hP hp hQ, hA'⟩
+
+section
+variable (cmpF : Int → Int → Int) (callH : CallH PName) (lf : Nat)
+
+def Inv (st : St) (t : PT) (k : Int) (q : Option Nat) : Prop :=
+  ∃ s par pre post, Repr st.h q par s ∧ t.addrs = pre ++ s.addrs ++ post ∧
+    (∀ x ∈ pre, cmpF (st.h x).key k < 0) ∧ (∀ x ∈ post, cmpF k (st.h x).key < 0)
+
+def Good2 (t : PT) (k : Int) (ρ : Env) (st : St) : Prop :=
+  ∃ p c P Q, ρ 4 = .ptr (some p) ∧ ρ 3 = .int c ∧ t.addrs = P ++ p :: Q ∧
+    (∀ x ∈ P, cmpF (st.h x).key k < 0) ∧ (∀ x ∈ Q, cmpF k (st.h x).key < 0) ∧
+    (c < 0 → (st.h p).left = none ∧ cmpF k (st.h p).key < 0) ∧
+    (¬ c < 0 → (st.h p).right = none ∧ cmpF (st.h p).key k < 0)
+
+theorem loop_inv2 (hLaw : Ekit.RB.LawfulCmp cmpF) (st : St) (t : PT) (hO : Ordered cmpF st t) (m : Nat) :
+    ∀ n (ρ : Env) q, ρ 0 = .ptr (some m) → ρ 2 = .ptr q → Inv cmpF st t (st.h m).key q →
+      (q = none → Good2 cmpF t (st.h m).key ρ st) → ∀ fl ρ' st',
+      iterate (fun ρ st => evalE cmpF callH ρ st loopC) (fun ρ st => exec cmpF callH lf ρ st loopB) n ρ st
+        = .ok (fl, ρ', st') →
+      st' = st ∧ (fl = .normal → Good2 cmpF t (st.h m).key ρ' st ∧ ρ' 0 = .ptr (some m)) := by
+  intro n
+  induction n with
+  | zero => intro ρ q h0 h2 hinv hg fl ρ' st' h; simp [iterate] at h
+  | succ n ih =>
+    intro ρ q h0 h2 hinv hg fl ρ' st' h
+    simp only [iterate, cond_eval cmpF callH ρ st q h2] at h
+    cases q with
+    | none =>
+      simp at h
+      obtain ⟨rfl, rfl, rfl⟩ := h
+      exact ⟨rfl, fun _ => ⟨hg rfl, h0⟩⟩
+    | some a =>
+      obtain ⟨s, par, pre, post, hR, he, hpre, hpost⟩ := hinv
+      cases s with
+      | leaf => simp [Repr] at hR
+      | node L a' R =>
+        simp only [Repr] at hR
+        obtain ⟨ha', _, hL, hRr⟩ := hR
+        have ha'' : a' = a := (Option.some.inj ha').symm
+        subst ha''
+        simp only [PT.addrs] at he
+        have hO' := ordered_iff.1 hO
+        rw [he] at hO'
+        obtain ⟨hLa, haR⟩ := pw_mid hO'
+        have hb : (!(some a' == (none : Option Nat))) = true := rfl
+        simp only [hb, body_eval0 cmpF callH lf ρ st m a' h0 h2] at h
+        generalize hc : cmpF (st.h m).key (st.h a').key = c at h
+        by_cases h1 : c < 0
+        · simp only [if_pos h1] at h
+          have hka : cmpF (st.h m).key (st.h a').key < 0 := by rw [hc]; exact h1
+          have hkR : ∀ x ∈ R.addrs ++ post, cmpF (st.h m).key (st.h x).key < 0 := by
+            intro x hx
+            rcases List.mem_append.1 hx with hx | hx
+            · exact hLaw.lt_trans hka (haR x hx)
+            · exact hpost x hx
+          refine ih _ (st.h a').left (by simp [set_apply, h0]) (by simp [set_apply])
+            ⟨L, some a', pre, a' :: R.addrs ++ post, hL, by rw [he]; simp [List.append_assoc], hpre, ?_⟩
+            (fun hn => ?_) fl ρ' st' h
+          · intro x hx
+            rcases List.mem_cons.1 hx with hx | hx
+            · rw [hx]; exact hka
+            · exact hkR x hx
+          · rw [hn] at hL
+            have hLl : L = .leaf := by
+              cases L with
+              | leaf => rfl
+              | node _ _ _ => simp [Repr] at hL
+            subst hLl
+            exact ⟨a', c, pre, R.addrs ++ post, by simp [set_apply], by simp [set_apply],
+              by rw [he]; simp [PT.addrs, List.append_assoc], hpre, hkR, fun _ => ⟨hn, hka⟩,
+              fun h' => absurd h1 h'⟩
+        · simp only [if_neg h1] at h
+          by_cases h3 : c > 0
+          · simp only [if_pos h3] at h
+            have hak : cmpF (st.h a').key (st.h m).key < 0 := hLaw.lt_of_gt (by rw [hc]; exact h3)
+            have hPk : ∀ x ∈ pre ++ L.addrs, cmpF (st.h x).key (st.h m).key < 0 := by
+              intro x hx
+              rcases List.mem_append.1 hx with hx | hx
+              · exact hpre x hx
+              · exact hLaw.lt_trans (hLa x hx) hak
+            refine ih _ (st.h a').right (by simp [set_apply, h0]) (by simp [set_apply])
+              ⟨R, some a', pre ++ L.addrs ++ [a'], post, hRr, by rw [he]; simp [List.append_assoc], ?_, hpost⟩
+              (fun hn => ?_) fl ρ' st' h
+            · intro x hx
+              rcases List.mem_append.1 hx with hx | hx
+              · exact hPk x hx
+              · simp at hx; rw [hx]; exact hak
+            · rw [hn] at hRr
+              have hRl : R = .leaf := by
+                cases R with
+                | leaf => rfl
+                | node _ _ _ => simp [Repr] at hRr
+              subst hRl
+              exact ⟨a', c, pre ++ L.addrs, post, by simp [set_apply], by simp [set_apply],
+                by rw [he]; simp [PT.addrs, List.append_assoc], hPk, hpost, fun h' => absurd h' h1,
+                fun _ => ⟨hn, hak⟩⟩
+          · simp only [if_neg h3] at h
+            have h4 : c = 0 := by omega
+            simp only [if_pos h4] at h
+            simp at h
+            obtain ⟨rfl, rfl, rfl⟩ := h
+            exact ⟨rfl, fun hf => by cases hf⟩
+
+theorem after_spec2 (ρ : Env) (st : St) (t : PT) (m : Nat) (hH : Holds st t)
+    (hO : Ordered cmpF st t) (h0 : ρ 0 = .ptr (some m))
+    (hg : Good2 cmpF t (st.h m).key ρ st) (fl : Flow) (ρ' : Env) (st' : St)
+    (h : exec cmpF callH lf ρ st afterL = .ok (fl, ρ', st')) :
+    ∃ t', Holds st' t' ∧ Ordered cmpF st' t' ∧ PtrIn t'.addrs (ρ' 1) := by
+  obtain ⟨p, c, P, Q, h4, h3, he, hP, hQ, hl, hr⟩ := hg
+  have hp : p ∈ t.addrs := by rw [he]; simp
+  have hpA : p ≠ st.alloc := Nat.ne_of_lt (hH.2.2 p hp)
+  simp only [afterL, exec, evalE, set_apply, h0, h4, h3, Node.get] at h
+  simp [h0, h4, h3] at h
+  by_cases h1 : c < 0
+  · simp [h1, Node.set] at h
+    obtain ⟨_, rfl, rfl⟩ := h
+    simp only [set_apply, PtrIn, if_true]
+    refine link_left_ord hH hO he (hl h1).1 _ _ (by simp [upd, hpA.symm])
+      (by simp [upd, hpA]) (fun b hb1 hb2 => by simp [upd, hb1, hb2]) (fun x hx => ?_) (by simp [upd, hpA.symm])
+      hP (hl h1).2 hQ
+    have hxA : x ≠ st.alloc := Nat.ne_of_lt (hH.2.2 x hx)
+    by_cases hxp : x = p
+    · subst hxp; simp [upd, hxA]
+    · simp [upd, hxA, hxp]
+  · simp [h1, Node.set] at h
+    obtain ⟨_, rfl, rfl⟩ := h
+    simp only [set_apply, PtrIn, if_true]
+    refine link_right_ord hH hO he (hr h1).1 _ _ (by simp [upd, hpA.symm])
+      (by simp [upd, hpA]) (fun b hb1 hb2 => by simp [upd, hb1, hb2]) (fun x hx => ?_) (by simp [upd, hpA.symm])
+      hP (hr h1).2 hQ
+    have hxA : x ≠ st.alloc := Nat.ne_of_lt (hH.2.2 x hx)
+    by_cases hxp : x = p
+    · subst hxp; simp [upd, hxA]
+    · simp [upd, hxA, hxp]
+
+theorem else_spec2 (hLaw : Ekit.RB.LawfulCmp cmpF) (ρ : Env) (st : St) (t : PT) (m : Nat) (hH : Holds st t)
+    (hO : Ordered cmpF st t) (hroot : st.root ≠ none)
+    (h0 : ρ 0 = .ptr (some m)) (fl : Flow) (ρ' : Env) (st' : St)
+    (h : exec cmpF callH lf ρ st elseB = .ok (fl, ρ', st')) :
+    ∃ t', Holds st' t' ∧ Ordered cmpF st' t' ∧ (fl = .normal → PtrIn t'.addrs (ρ' 1)) := by
+  simp only [elseB, exec, evalE] at h
+  have hH1 : Holds ⟨upd st.h st.alloc {}, st.alloc + 1, st.root, st.size⟩ t := holds_alloc hH {} st.size
+  have hO1 : Ordered cmpF ⟨upd st.h st.alloc {}, st.alloc + 1, st.root, st.size⟩ t := by
+    refine ordered_congr (fun a ha => ?_) hO
+    have hne : a ≠ st.alloc := Nat.ne_of_lt (hH.2.2 a ha)
+    simp [upd, hne]
+  have hinv := loop_inv2 cmpF callH lf hLaw _ t hO1 m lf
+    (((ρ.set 2 (.ptr st.root)).set 3 (.int 0)).set 4 (.ptr (some st.alloc))) st.root
+    (by simp [set_apply, h0]) (by simp [set_apply])
+    ⟨t, none, [], [], hH1.1, by simp, fun _ hx => by simp at hx, fun _ hx => by simp at hx⟩
+    (fun hn => absurd hn hroot)
+  split at h
+  · rename_i ρ1 st1 heq
+    obtain ⟨rfl, hg⟩ := hinv _ _ _ heq
+    obtain ⟨hgood, h0'⟩ := hg rfl
+    obtain ⟨t', ht', hO', hp⟩ := after_spec2 cmpF callH lf _ _ t m hH1 hO1 h0' hgood _ _ _ h
+    exact ⟨t', ht', hO', fun _ => hp⟩
+  · rename_i r hne heq
+    cases h
+    obtain ⟨rfl, _⟩ := hinv _ _ _ heq
+    exact ⟨t, hH1, hO1, fun hf => absurd rfl (hf ▸ hne _ _)⟩
+  · cases h
+
+theorem then_spec2
+    (hNew : ∀ args st v st' t, Holds st t → callH .newRBNode args st = .ok (v, st') →
+       ∃ n, v = .ptr (some n) ∧ n ∉ t.addrs ∧ n < st'.alloc ∧ Holds st' t ∧
+            (st'.h n).left = none ∧ (st'.h n).right = none ∧ (st'.h n).parent = none ∧
+            (∀ a, a ≠ n → (st'.h a).key = (st.h a).key))
+    (ρ : Env) (st : St) (t : PT) (m : Nat) (hH : Holds st t) (hroot : st.root = none)
+    (h0 : ρ 0 = .ptr (some m)) (fl : Flow) (ρ' : Env) (st' : St)
+    (h : exec cmpF callH lf ρ st thenB = .ok (fl, ρ', st')) :
+    ∃ t', Holds st' t' ∧ Ordered cmpF st' t' ∧ (fl = .normal → PtrIn t'.addrs (ρ' 1)) := by
+  simp only [thenB, exec, evalE, h0, Node.get] at h
+  cases hc : callH PName.newRBNode [Val.int (st.h m).key, Val.int (st.h m).value] st with
+  | error e => rw [hc] at h; simp at h
+  | ok r =>
+    obtain ⟨v, s1⟩ := r
+    rw [hc] at h
+    obtain ⟨n, rfl, hn, hlt, hH', f1, f2, f3, _⟩ := hNew _ _ _ _ _ hH hc
+    simp at h
+    obtain ⟨rfl, rfl, rfl⟩ := h
+    have ht : t = .leaf := holds_root_none hH hroot
+    subst ht
+    refine ⟨.node .leaf n .leaf, ⟨?_, ?_, ?_⟩, ?_, fun _ => ?_⟩
+    · simp [Repr, f1, f2, f3]
+    · simp [PT.addrs]
+    · simp [PT.addrs, hlt]
+    · simp [Ordered, keysOf, PT.addrs]
+    · simp [set_apply, PtrIn, PT.addrs]
+
+theorem tail_spec2 (hK : ∀ fn, isK fn = true → SpecK callH fn)
+    (ρ : Env) (st : St) (t : PT) (hH : Holds st t) (hO : Ordered cmpF st t) (hp : PtrIn t.addrs (ρ 1))
+    (fl : Flow) (ρ' : Env) (st' : St)
+    (h : exec cmpF callH lf ρ st tailS = .ok (fl, ρ', st')) :
+    ∃ t', Holds st' t' ∧ Ordered cmpF st' t' := by
+  simp only [tailS, exec, evalE] at h
+  cases hc : callH PName.fixAfterAdd [ρ 1] { st with size := st.size + 1 } with
+  | error e => rw [hc] at h; simp at h
+  | ok r =>
+    obtain ⟨v, s1⟩ := r
+    rw [hc] at h
+    simp at h
+    obtain ⟨_, _, rfl⟩ := h
+    have hH' : Holds { st with size := st.size + 1 } t := hH
+    have hO' : Ordered cmpF { st with size := st.size + 1 } t := hO
+    obtain ⟨t', ht', hpres, _⟩ := hK .fixAfterAdd rfl _ _ _ _ t hH' (by simpa using hp) hc
+    exact ⟨t', ht', hpres.ordered hO'⟩
+end
+
+theorem addNode_ord (cmpF : Int → Int → Int) (hLaw : Ekit.RB.LawfulCmp cmpF) (callH : CallH PName) (lf : Nat)
+    (hK : ∀ fn, isK fn = true → SpecK callH fn)
+    (hNew : ∀ args st v st' t, Holds st t → callH .newRBNode args st = .ok (v, st') →
+       ∃ n, v = .ptr (some n) ∧ n ∉ t.addrs ∧ n < st'.alloc ∧ Holds st' t ∧
+            (st'.h n).left = none ∧ (st'.h n).right = none ∧ (st'.h n).parent = none ∧
+            (∀ a, a ≠ n → (st'.h a).key = (st.h a).key)) :
+    ∀ n st v st' t, Holds st t → Ordered cmpF st t →
+      runBody cmpF callH lf (procs .addNode) [.ptr (some n)] st = .ok (v, st') →
+      ∃ t', Holds st' t' ∧ Ordered cmpF st' t' := by
+  intro n st v st' t hH hO h
+  simp only [runBody, procs, body_addNode_eq, exec, evalE] at h
+  have h0 : ((Env.ofArgs [Val.ptr (some n)]).set 1 (Val.ptr none)) 0 = .ptr (some n) := by
+    simp [set_apply, Env.ofArgs]
+  have hmid : ∀ fl ρ' s', exec cmpF callH lf ((Env.ofArgs [Val.ptr (some n)]).set 1 (Val.ptr none)) st midS
+        = .ok (fl, ρ', s') →
+      ∃ t', Holds s' t' ∧ Ordered cmpF s' t' ∧ (fl = .normal → PtrIn t'.addrs (ρ' 1)) := by
+    intro fl ρ' s' hEq
+    simp only [midS, exec, evalE] at hEq
+    cases hr : st.root with
+    | none =>
+      simp [valEq, hr] at hEq
+      exact then_spec2 cmpF callH lf hNew _ st t n hH hr h0 _ _ _ hEq
+    | some a =>
+      simp [valEq, hr] at hEq
+      exact else_spec2 cmpF callH lf hLaw _ st t n hH hO (by simp [hr]) h0 _ _ _ hEq
+  generalize exec cmpF callH lf ((Env.ofArgs [Val.ptr (some n)]).set 1 (Val.ptr none)) st midS = E at h hmid
+  match E, hmid with
+  | .error e, _ => simp at h
+  | .ok (fl, ρ1, s1), hmid =>
+    obtain ⟨t1, hH1, hO1, hp1⟩ := hmid _ _ _ rfl
+    cases fl with
+    | normal =>
+      simp only at h
+      cases hx : exec cmpF callH lf ρ1 s1 tailS with
+      | error e => rw [hx] at h; simp at h
+      | ok r =>
+        obtain ⟨fl2, ρ2, s2⟩ := r
+        obtain ⟨t2, hH2⟩ := tail_spec2 cmpF callH lf hK ρ1 s1 t1 hH1 hO1 (hp1 rfl) _ _ _ hx
+        rw [hx] at h
+        cases fl2 <;> simp at h
+        · obtain ⟨_, rfl⟩ := h; exact ⟨t2, hH2⟩
+        · obtain ⟨_, rfl⟩ := h; exact ⟨t2, hH2⟩
+    | cont => simp at h
+    | brk => simp at h
+    | ret w =>
+      simp at h
+      obtain ⟨_, rfl⟩ := h
+      exact ⟨t1, hH1, hO1⟩
 
 end Ekit.MiniGo.RBHeap.AddN
